@@ -168,12 +168,17 @@ impl Prop for P {
 fn deflate_phase(s: &mut mz_stream, r: &mut CompressorOxide, x: &[u8], steps: &[(u32, u32, i8)], finish_out: Option<u32>, end_align: bool, calls: &mut u64, pending_small: &mut bool) -> Check {
     let mut ipos = 0usize;
     let mut i = 0usize;
+    let mut fin_calls = 0u32;
     loop {
         let (take, osz, fl) = if i < steps.len() {
             let (a, b, f) = steps[i];
             ((a as usize).min(x.len() - ipos), b.max(1) as usize, f as i32)
         } else if let Some(fo) = finish_out {
-            (x.len() - ipos, fo.max(1) as usize, 4)
+            // the finishing phase collects the output in `fo`-byte pieces for at most 3000 calls, then
+            // in 128 KiB pieces (every call re-offers the whole remaining input from a fresh guarded
+            // copy: tens of thousands of such calls take minutes and trip the stall watchdog)
+            fin_calls += 1;
+            (x.len() - ipos, if fin_calls > 3000 { 1 << 17 } else { fo.max(1) as usize }, 4)
         } else {
             break;
         };
@@ -628,6 +633,7 @@ fn c_tdefl(data: &Recipe, level: i32, zlib: bool, strategy: i32, mode: u8, chunk
                     cin = rin; // tdefl_compress_buffer does not report the count
                     vensure!(st == rs && sink.data == rsink, "c17:tdefl_compress_buffer-differs", "after {} earlier init(s) (callback {pre_cb}, same flags {pre_same}, used {pre_use}, finished {pre_finish}): tdefl_compress_buffer -> {st}, callback got {} new bytes ({} in total); compress_to_output -> {rs}, {} bytes in total", pre as u8, sink.data.len() - before, sink.data.len(), rsink.len());
                 } else {
+                    let osz = if n > 3000 { 1usize << 17 } else { osz }; // bounded number of tiny-buffer calls (see deflate_phase)
                     let go = GuardBuf::new(osz, al(end_align));
                     let (mut isz, mut osz2) = (take, osz);
                     // SAFETY: guard buffers
@@ -674,6 +680,7 @@ fn c_tdefl(data: &Recipe, level: i32, zlib: bool, strategy: i32, mode: u8, chunk
                 let take = if last { x.len() - pos } else { (chunks[i] as usize).min(x.len() - pos) };
                 i += 1;
                 let g = GuardBuf::from_slice(&x[pos..pos + take], al(end_align));
+                let osz = if n > 3000 { 1usize << 17 } else { osz }; // bounded number of tiny-buffer calls (see deflate_phase)
                 let go = GuardBuf::new(osz, al(end_align));
                 let mut isz = take;
                 let mut osz2 = osz;
